@@ -9,6 +9,8 @@ NOTE = ("Trusted: Coq 8.16.1 kernel + vm_compute; harness/gen_tables.py and the 
         "Biopython/re/fs behaviour as modelled (see DESIGN.md section 7). No axioms (Print Assumptions: closed).")
 
 CLAIMED = {
+ "C07": "Theorem for all stores (reference lists, feature tables, citation qualifiers) and all interruption points of the call (after any number of dereferencing assignments): the inputs read exactly as before, only citation lists are ever touched, a repeated call starts from the same store; the no-restoration variant is refuted; _assembly.py tied by comparing the citation state after each of 1-4 consecutive calls on shared records (success, warning, invalid vector, duplicate, invalid module, missing module, injected exception in the j-th fragment extraction with the state recorded at that point, malformed citation) with the model; deep-snapshot and fresh-copy oracle.",
+ "C10": "Theorems on the re-referencing fold for all lists of features and citations: every product index points to the reference its source cited, the product list has each cited reference exactly once and nothing else, in first-use order; inputs unchanged (C07); _assembly.py tied by comparing product references and citation indices with the model on generated assemblies with shared/repeated/unused references over consecutive calls; independent label-based oracle including the bracketed format and equality with the citation-free assembly.",
  "C06": "Invariant proof for the cache state machine over all histories of (class, record) queries: every stored pattern is the structure of the class owning it, hence every answer (is_valid, overhangs, target) equals the answer of the same query issued first; class identity of the 85 kit classes proved by reflection over the table regenerated from the working tree; the pinned MRO lookup is refuted on a witness; _structured.py tied by replaying every ordered pair of kit classes and random histories with run-time subclasses in forked interpreters against the machine, plus a fresh-interpreter oracle.",
  "C03": "Theorems on the model of AssemblyManager over typed elements with arbitrary overhang keys: the outcome is characterised by the overhang graph (product iff the vector's overhangs differ, no two distinct modules share or reverse-complement a start overhang, and the chain from the vector's downstream overhang reaches its upstream overhang; otherwise InvalidSequence / DuplicateModules naming a clashing pair / MissingModule naming the stalled overhang), each module used at most once, unused = exactly the rest, permutation invariance, fuel never exhausted; _assembly.py tied by correspondence at two levels (walk fed with the implementation's overhangs; end to end from raw sequences) over every vector pair x every ordered list of <= 2 modules over an alphabet with reverse-complementary and palindromic overhangs, sampled longer lists in all permutations, mixed case; independent graph oracle.",
  "C19": "Swap theorem on the model of the assembly walk for every module list, position and replacement with the same overhang keys: same chain, same unused set, products equal outside the replaced segment; tied by correspondence of both products from raw sequences for one enzyme of every geometry of the family, and a segment-wise oracle.",
